@@ -396,6 +396,53 @@ def rule_support_default(repo: Repo) -> List[Ob]:
                                   "(a renamed intermediate version takes over the previous version's value while the guard is false)"))
                 n += 1
                 continue
+            if mname == "get_free_symbols" and all(isinstance(t.ast, ast.expr) for t, _ in tests) and \
+                    not any(isinstance(x, ast.Call) and call_name(x) in ("any", "all") for t, _ in tests for x in ast.walk(t.ast)):
+                # truth table: whenever the whole condition is NOT implied by the loop guard the default is a free symbol,
+                # whatever the other atoms (with_default, ...) say -- any spelling of `with_default or not implied`
+                key = f"{cls.relpath}::{cls.name}.{mname}::default"
+                atoms2: List[str] = []
+
+                def ev2(e, env):
+                    if isinstance(e, ast.UnaryOp) and isinstance(e.op, ast.Not):
+                        return not ev2(e.operand, env)
+                    if isinstance(e, ast.BoolOp):
+                        vals = [ev2(v, env) for v in e.values]
+                        return all(vals) if isinstance(e.op, ast.And) else any(vals)
+                    if isinstance(e, ast.Call) and call_name(e) == "is_implied_by_loop_guard" and is_self_attr(e.func.value, "condition", selfn):
+                        nm_ = "IMPLIED"
+                    elif isinstance(e, ast.Name) and e.id in m.params():
+                        nm_ = "P:" + e.id
+                    else:
+                        nm_ = "U:" + src(e)
+                    if nm_ not in atoms2:
+                        atoms2.append(nm_)
+                    return env.get(nm_, False)
+
+                def added2(env):
+                    return all(bool(ev2(t.ast, env)) == bool(reach) for t, reach in tests)
+                added2({})
+                for _ in range(3):
+                    for bits in range(2 ** len(atoms2)):
+                        added2({a: bool(bits >> i & 1) for i, a in enumerate(atoms2)})
+                if "IMPLIED" in atoms2 and len(atoms2) <= 6:
+                    skipped2 = []
+                    for bits in range(2 ** len(atoms2)):
+                        env = {a: bool(bits >> i & 1) for i, a in enumerate(atoms2)}
+                        if not env["IMPLIED"] and not added2(env):
+                            skipped2.append(env)
+                    unknown2 = [a for a in atoms2 if a.startswith("U:")]
+                    conds = " and ".join(("" if reach else "not ") + "(" + src(t.ast) + ")" for t, reach in tests)
+                    if not skipped2:
+                        obs.append(Ob("A4-support-default", key, cls.relpath, adds[0].lineno, m.qualname, True,
+                                      "the default variable is a free symbol whenever the condition is not implied by the loop guard"))
+                    elif unknown2:
+                        obs.append(inconclusive("A4-support-default", key, cls.relpath, adds[0].lineno, m.qualname, f"tests {unknown2} not recognised"))
+                    else:
+                        obs.append(Ob("A4-support-default", key, cls.relpath, adds[0].lineno, m.qualname, False,
+                                      f"the default variable is included only under `{conds}`: it is left out for {skipped2[0]} although the condition is not implied by the loop guard"))
+                    n += 1
+                    continue
             bad = []
             unknown = []
             for t, reach in tests:
